@@ -597,13 +597,15 @@ func (r *runner) runBatch(worker int, jobs []job, scale int) {
 		}
 		// the child died while working on jobs[done]
 		se := stderr.String()
-		if pending == nil && done == 0 && strings.TrimSpace(se) == "" {
-			key := fmt.Sprint(jobs[0])
+		if pending == nil && !strings.Contains(se, "VERIF-MACHINERY") {
+			// died between two judged calls (start-up, session housekeeping): not attributable, try that job once more
+			key := fmt.Sprint(jobs[done])
 			r.mu.Lock()
 			again := !r.retried[key]
 			r.retried[key] = true
 			r.mu.Unlock()
 			if again {
+				jobs = jobs[done:]
 				continue
 			}
 		}
